@@ -117,12 +117,14 @@ def correspondence(ctx):
         corr.samples.append({'klass': c['klass'], 'input': c['input'], 'impl': c['obs'], 'calls': (c.get('calls') or [])[:8]})
     # the oracle is the property: OK and ERR are fine, PANIC and HANG are violations
     for c in cases:
-        if c['obs'] in ('PANIC', 'HANG'):
+        if c['obs'] in ('PANIC', 'HANG', 'DIFF'):
             klass = c['klass'].replace('corpus/', '')
+            what = {'PANIC': 'a library call on hostile input panicked instead of returning an error',
+                    'HANG': 'a library call on hostile input did not return within the deadline instead of returning an error',
+                    'DIFF': 'InTotoVerify gives a layout with null map/list members a different verdict than its twin with empty members'}[c['obs']]
             corr.violations.append({'klass': klass, 'case': c, 'impl': c['obs'] + ' ' + (c.get('detail') or ''),
-                                    'expected': 'OK or ERR from every call',
-                                    'what': 'a library call on hostile input %s instead of returning an error' %
-                                            ('panicked' if c['obs'] == 'PANIC' else 'did not return within the deadline')})
+                                    'expected': 'OK or ERR from every call' if c['obs'] != 'DIFF' else 'the verdict of the twin layout',
+                                    'what': what})
     bad = set(v['case']['id'] for v in corr.violations)
     # the panic-free models on the structured degenerate inputs
     tr = [(c['id'], c['coq_model'], c['primary'].encode()) for c in cases if c.get('coq_model') and c['id'] not in bad]
@@ -141,7 +143,11 @@ def correspondence(ctx):
                  "verified, signed, dumped, reloaded and, re-signed, run through InTotoVerify against a valid link directory; rules of every length 0..11; "
                  "thresholds from min-int64 to max-int64 x 7 link directories x 3 routes; 45 key materials through Sign / VerifySignature of both wrappers, as "
                  "layout key and as functionary key; hostile signatures and certificates; degenerate layouts; hostile link directories (directories and "
-                 "symlinks named like links, 1000 files, sublayout recursion through a symlink); key files; odd paths; Go values that cannot come from a file. "
+                 "symlinks named like links, 1000 files, sublayout recursion through a symlink); key files; odd paths; Go values that cannot come from a file; "
+                 "links carrying self-made or CA-issued certificates with odd subject / SAN values and layouts with odd certificate-constraint values "
+                 "(through InTotoVerify and directly through Step.CheckCertConstraints / CertificateConstraint.Check); layouts and links whose map / list "
+                 "members are null in single, pairwise and random combinations, each with a link accepted on the certificate path and on the public-key "
+                 "path, verified from the dumped file and in memory, verdict compared with the twin that has {} / [] instead (DIFF = violation). "
                  "non-trivial = all; distinct = distinct input JSON. quick tier applies a random 3/4 of the mutations per slot.")
     if ctx.tier == 'thorough':
         corr.violations += _fuzz(ctx)
@@ -191,7 +197,7 @@ def search(ctx, why):
     res = []
     for l in open(out):
         c = json.loads(l)
-        if c['obs'] in ('PANIC', 'HANG'):
+        if c['obs'] in ('PANIC', 'HANG', 'DIFF'):
             res.append({'klass': c['klass'].replace('corpus/', ''), 'case': c, 'impl': c['obs'] + ' ' + (c.get('detail') or ''),
                         'expected': 'OK or ERR from every call', 'what': 'a library call on hostile input panicked or hung (search run)'})
     return res
